@@ -300,7 +300,7 @@ pub fn all_params(thorough: bool, seed: u64) -> Vec<EvqParams> {
                         let offered = if legacy { feat } else { feat | (1 << 32) };
                         let n = match kind { "owning2x16" => 2, "owning4x64" => 4, "owning8x16" => 8, _ => 32 };
                         v.push(EvqParams { transport: transport.into(), legacy, offered, policy: policy.into(), kind: kind.into(),
-                                           events: if thorough { 100 * n } else { 12 * n + 40 }, seed: s });
+                                           events: if thorough { 40 * n } else { 12 * n + 40 }, seed: s });
                     }
                 }
             }
